@@ -448,6 +448,17 @@ pub fn flags_arch(kinds: &[String], drop: &[bool]) -> Value {
                 };
                 layers.push(json!({"kind": "feedback", "loops": 2, "acc": "mean", "layers": [inner]}));
             }
+            // a dense block with input AND output skips (in a spatial position: a plain convolution block -- blocks of spatial
+            // layers with skips in front of a dense layer cannot be trained by the library)
+            "fbs" => {
+                if spatial || (i == 0 && first_spatial) {
+                    let inner = json!({"kind": "conv", "filters": 1, "kernel": [3, 3], "stride": [1, 1], "padding": [1, 1], "act": "tanh", "dropout": d});
+                    layers.push(json!({"kind": "feedback", "loops": 2, "acc": "mean", "layers": [inner]}));
+                } else {
+                    let inner = json!({"kind": "dense", "out": 16, "act": "tanh", "bias": true, "dropout": d});
+                    layers.push(json!({"kind": "feedback", "loops": 2, "acc": "mean", "inskips": true, "outskips": true, "layers": [inner]}));
+                }
+            }
             "fb" => {
                 let inner = if spatial || (i == 0 && first_spatial) {
                     json!({"kind": "conv", "filters": 1, "kernel": [3, 3], "stride": [1, 1], "padding": [1, 1], "act": "tanh", "dropout": d})
@@ -807,7 +818,7 @@ fn net_event(run: usize, spec: &RunSpec) -> Value {
 
 fn driver_archs(rng: &mut Rng) -> Vec<Value> {
     let mut archs = architectures();
-    let kinds_menu = ["dense", "softmax", "conv", "deconv", "pool", "fb", "fbd"];
+    let kinds_menu = ["dense", "softmax", "conv", "deconv", "pool", "fb", "fbd", "fbs"];
     for _ in 0..4 {
         let k = rng.range(1, 4) as usize;
         let kinds: Vec<String> = (0..k).map(|_| rng.pick(&kinds_menu).to_string()).collect();
@@ -1248,6 +1259,29 @@ pub fn replay_validate(case: &Value, rep: &mut Report, rng: &mut Rng) {
     }
     rep.count(&format!("generic_arch:{}", arch["name"].as_str().unwrap_or("?")), 1);
     }
+    // validate as `learn` calls it (network in training mode, dropout configured) reports what a stand-alone validate
+    // reports on the same weights: one epoch with the gradient clamped to (0, 0), so that no weight moves
+    if n >= 2 && (n + len) % 3 == 0 {
+        let arch = json!({"name": "mlp-dropout-frozen", "ints": false, "input": [4], "out": 3,
+            "layers": [{"kind": "dense", "out": 6, "act": "tanh", "bias": true, "dropout": 0.4}, {"kind": "dense", "out": 3, "act": "linear", "bias": true, "dropout": 0.3}],
+            "objective": {"kind": "mse", "clamp": [0, 0]}, "optimizer": {"kind": "sgd", "lr": 0.1}});
+        let mut g = nets::build(&arch);
+        init_params(&mut g, &arch, rng);
+        let data = arch_dataset(&arch, n, rng);
+        let (gx, gy) = (refs(&data.inputs), refs(&data.targets));
+        rep.checks += 1;
+        match guarded(|| {
+            let (_, vl, va) = g.learn(&gx, &gy, Some((&gx, &gy, 5)), 2, 1, None);
+            (vl, va, g.validate(&gx, &gy, 0.05))
+        }) {
+            Err(msg) => rep.mismatch("C12", "validate_inside_learn_panicked", &id, json!({"panic": msg}), case),
+            Ok((vl, _va, (loss, _acc))) => {
+                if vl.len() != 1 || vl[0].to_bits() != loss.to_bits() {
+                    rep.mismatch("C12", "validate_called_by_learn_differs_from_stand_alone_validate", &id, json!({"inside_learn": vl, "stand_alone": loss}), case);
+                }
+            }
+        }
+    }
 }
 
 /// Architecture summary for the slot-addressing trace: [kind, filters, bias] per layer (from the description).
@@ -1288,7 +1322,7 @@ pub fn record_optslots(seed: u64, tier: &str, trace: &mut Vec<Value>, rep: &mut 
                                {"kind": "conv", "filters": 1, "kernel": [3, 3], "stride": [1, 1], "padding": [1, 1], "act": "tanh"}]},
                    {"kind": "dense", "out": 2, "act": "linear", "bias": true}],
         "objective": {"kind": "mse"}, "optimizer": {"kind": "adam", "lr": 0.01}}));
-    let kinds_menu = ["dense", "softmax", "conv", "deconv", "pool", "fb", "fbd"];
+    let kinds_menu = ["dense", "softmax", "conv", "deconv", "pool", "fb", "fbd", "fbs"];
     for _ in 0..(if tier == "thorough" { 30 } else { 6 }) {
         let k = rng.range(1, 4) as usize;
         let kinds: Vec<String> = (0..k).map(|_| rng.pick(&kinds_menu).to_string()).collect();
